@@ -26,6 +26,7 @@ import (
 	"github.com/cornelk/hashmap"
 	"github.com/pkg/errors"
 
+	"rcproxy/core/pkg/constant"
 	"rcproxy/core/pkg/logging"
 	"rcproxy/core/pkg/redis"
 )
@@ -369,12 +370,15 @@ func (c *ClusterNode) parseSlot(slotsStr string) (int32, int32, error) {
 	if err != nil {
 		return -1, -1, errors.New("slot parse failed")
 	}
-	if len(slots) <= 1 {
-		return int32(start), int32(start), nil
+	end = start
+	if len(slots) > 1 {
+		end, err = strconv.ParseInt(slots[1], 10, 32)
+		if err != nil {
+			return -1, -1, errors.New("slot parse failed")
+		}
 	}
-	end, err = strconv.ParseInt(slots[1], 10, 32)
-	if err != nil {
-		return -1, -1, errors.New("slot parse failed")
+	if start < 0 || start > end || end >= constant.RedisClusterSlots {
+		return -1, -1, errors.New("slot out of range")
 	}
 	return int32(start), int32(end), nil
 }
